@@ -23,7 +23,7 @@ type lcase struct {
 	Request [][]string `json:"request"` // directory (components below the module root) of each requested file
 	Rel     bool       `json:"rel"`     // hand relative paths to LoadSources
 	DupSame bool       `json:"dupsame"` // a repeated directory means the very same file twice
-	Kind    string     `json:"kind"`    // "" | missing | nongo | typeerror
+	Kind    string     `json:"kind"`    // "" | missing | nongo | typeerror | deperror
 }
 
 type obs struct {
@@ -90,6 +90,12 @@ func runCase(lc lcase, base string) (o obs) {
 		body := fmt.Sprintf("package %s\n\ntype T%d int\n", pkgName(d), n)
 		if lc.Kind == "typeerror" && i == len(lc.Request)-1 {
 			body += "\nvar broken int = \"not an int\"\n"
+		}
+		if lc.Kind == "deperror" && i == len(lc.Request)-1 {
+			// the file itself is fine, but it imports a package of the module that does not type-check
+			body = fmt.Sprintf("package %s\n\nimport \"%s/zdep\"\n\ntype T%d int\n\nvar _ = zdep.Broken\n", pkgName(d), modPath, n)
+			os.MkdirAll(filepath.Join(mod, "zdep"), 0o755)
+			os.WriteFile(filepath.Join(mod, "zdep", "dep.go"), []byte("package zdep\n\nvar Broken int = \"not an int\"\n"), 0o644)
 		}
 		path := filepath.Join(dir, name)
 		if lc.Kind == "nongo" && i == len(lc.Request)-1 {
@@ -237,7 +243,7 @@ func Run(c *core.Ctx, replay string) (*core.Result, error) {
 		for i, req := range pick {
 			lc := lcase{Case: i + 1, Request: req, Rel: rng.Intn(3) == 0, DupSame: rng.Intn(2) == 0}
 			if i >= len(must) && rng.Intn(6) == 0 {
-				lc.Kind = []string{"missing", "nongo", "typeerror"}[rng.Intn(3)]
+				lc.Kind = []string{"missing", "nongo", "typeerror", "deperror"}[rng.Intn(4)]
 			}
 			cases = append(cases, lc)
 		}
